@@ -45,6 +45,8 @@ SNIPS = [
     "f(s5_{t}).\nw(X) :- f(X), \\+ p(X).\n",
 ]
 QUERIES = ['p', 'f', 'r', 'w', 'n']
+# ground arguments for calls: values of dynamic facts (a<tag> ...) and constants of the snippets' compiled clauses (s1a_<tag> ...)
+GROUND_VALUES = ['a', 'b', 'c', 's1a_', 's1b_', 's2a_', 's2b_', 's5_']
 
 
 def traced_files():
@@ -54,8 +56,21 @@ def traced_files():
 
 def gen_history(rng, n, ng_heavy=False):
     h = []
+    if ng_heavy == 'ground':
+        # ground calls of compiled clauses whose heads are atoms: every call is an atom-with-atom unification,
+        # some of them held suspended at their answer while the other engines do the same
+        h.append(['load', 0, True, True])
+        for _ in range(n):
+            k = rng.random()
+            v = rng.choice(['s1a_', 's1b_', 's1a_', 'zz'])
+            h.append(['queryg', 'p', v] if k < 0.4 else ['startg', 'p', v] if k < 0.6 else ['step', rng.randrange(4)] if k < 0.9 else ['close', rng.randrange(4), 'close'])
+        return h
     for _ in range(n):
         k = rng.random()
+        if ng_heavy and k < 0.35:
+            h.append(rng.choice([['assert', rng.choice(['p', 'f']), rng.choice('ab'), True, True], ['queryg', rng.choice(['p', 'f']), rng.choice(GROUND_VALUES)],
+                                 ['startg', rng.choice(['p', 'f']), rng.choice(GROUND_VALUES)], ['step', rng.randrange(4)], ['load', rng.choice((0, 1, 4)), True, True]]))
+            continue
         if ng_heavy and k < 0.7:
             # mostly facts with repeated variables and calls that bind one of their arguments
             h.append(['assertng', rng.choice(['g', 'h'])] if rng.random() < 0.3 else ['query2', rng.choice(['g', 'h']), rng.choice('abc')])
@@ -83,8 +98,11 @@ def gen_history(rng, n, ng_heavy=False):
             h.append(['step', rng.randrange(4)])
         elif k < 0.95:
             h.append(['close', rng.randrange(4), rng.choice(['close', 'drop'])])
-        elif k < 0.975:
+        elif k < 0.96:
             h.append(['query', rng.choice(QUERIES)])
+        elif k < 0.975:
+            # a call with a ground argument: atom-with-atom unifications (also held suspended at their answer)
+            h.append([rng.choice(('queryg', 'startg')), rng.choice(['p', 'f']), rng.choice(GROUND_VALUES)])
         else:
             h.append(['query2', rng.choice(['g', 'h']), rng.choice('abc')])
     return h
@@ -132,7 +150,7 @@ def gen(seed, tier):
         steps = [[rng.randrange(ntasks), rng.choice(['next'] * 8 + ['close', 'drop'])] for _ in range(rng.randrange(4, 40))]
         return {'mode': mode, 'world': world, 'dynfacts': dyn, 'tasks': tasks, 'steps': steps}
     ne = rng.choice((2, 2, 3) if tier != 'thorough' else (2, 3, 3, 4))
-    ng_heavy = rng.random() < 0.3
+    ng_heavy = rng.choice((False, False, False, False, True, True, 'ground'))
     hs = [gen_history(rng, rng.randrange(5, 26 * (2 if tier == 'thorough' else 1)), ng_heavy) for _ in range(ne)]
     return {'mode': mode, 'histories': hs, 'sched_seed': rng.randrange(1 << 30), 'switch_p': rng.choice((0.005, 0.02, 0.05, 0.2)), 'schedule': None}
 
@@ -199,6 +217,13 @@ class EngineRun:
                 if len(r) > 50:
                     break
             return r
+        if kind == 'queryg':
+            return sum(1 for _ in yp.query(op[1], [yp.atom(op[2] + self.tag)]))
+        if kind == 'startg':
+            if len(self.tasks) >= 4:
+                return 'noop'
+            self.tasks.append([GenTask(yp.query(op[1], [yp.atom(op[2] + self.tag)])), yp.atom(op[2] + self.tag)])
+            return None
         if kind == 'retract':
             x = yp.variable()
             g = yp.query('retract', [yp.functor(op[1], [x])])
